@@ -11,7 +11,7 @@ from concurrent.futures import ThreadPoolExecutor
 from common import (CORPUS, HARNESS, ToolError, Stage, cargo_build, log, run_tlc, sh, tlc_action_counts)
 
 OK_PAIRS = ["tracked", "box", "string", "big", "align64", "zst", "plain", "drop_to_plain", "plain_to_drop"]
-MM_PAIRS = ["mm_size", "mm_align", "mm_both", "mm_zst_in", "mm_zst_out"]
+MM_PAIRS = ["mm_size", "mm_align", "mm_both", "mm_zst_in", "mm_zst_out", "mm_align_down", "mm_size_down", "mm_both_down"]
 
 
 def from_tlc(line):
